@@ -249,7 +249,7 @@ pub fn run(ctx: &Ctx) -> Report {
     let mut k_of_base = vec![];
     for (bi, (name, b)) in bs.iter().enumerate() {
         let k: u32 = if thorough {
-            if b.len() <= 13 && name.contains("case=0") && (name.contains("a=0000") || name.contains("a=0003")) {
+            if b.len() <= 11 && name.contains("case=0") && name.contains("a=0000") {
                 3
             } else {
                 2
@@ -275,7 +275,7 @@ pub fn run(ctx: &Ctx) -> Report {
         let track = k < 2; // bound the memory of the distinct count: deep subtrees are counted by evaluations only
         neighbours(&mut s, k, &mut |x| {
             c += 1;
-            eval(acc, x, base_order + (j << 24) + (c & 0xFFFFFF), true, track);
+            eval(acc, x, base_order + (j << 24) + (c & 0xFFFFFF), c % 16 == 1, track);
         });
     });
     let before = all.evals;
